@@ -37,13 +37,38 @@ func Callee(c ssa.CallInstruction) string {
 	case *ssa.Builtin:
 		return "builtin." + v.Name()
 	case *ssa.Function:
-		return FuncName(v)
+		return FuncName(throughThunk(v))
 	case *ssa.MakeClosure:
 		if fn, ok := v.Fn.(*ssa.Function); ok {
-			return FuncName(fn)
+			return FuncName(throughThunk(fn))
 		}
 	}
 	return "<dynamic>"
+}
+
+// throughThunk resolves the synthetic function behind a method expression (T.M used as a function value) or a
+// bound method value to the method it forwards to: a call of such a value IS a call of the method.
+func throughThunk(fn *ssa.Function) *ssa.Function {
+	if fn == nil || fn.Synthetic == "" || !(strings.HasPrefix(fn.Synthetic, "thunk ") || strings.HasPrefix(fn.Synthetic, "bound ")) {
+		return fn
+	}
+	var target *ssa.Function
+	n := 0
+	for _, b := range fn.Blocks {
+		for _, in := range b.Instrs {
+			if c, ok := in.(*ssa.Call); ok {
+				n++
+				if c.Call.IsInvoke() {
+					return fn // forwards to an interface method: keep the thunk's own name
+				}
+				target = c.Call.StaticCallee()
+			}
+		}
+	}
+	if n == 1 && target != nil {
+		return target
+	}
+	return fn
 }
 
 // FuncName renders a function in the same vocabulary as Callee.
